@@ -7,11 +7,11 @@ Every transfer_model result is compared (vf.core.mcache.canon) with _compile_mod
 the current options.
 
 Process state is part of the explored state: a history is replayed *in one process against one folder path*
-(the way an application uses pymoca), every transition is evaluated in a fork of that process (fork = snapshot
-of the process memory; the folder is snapshotted / restored in place), and the abstract state records what the
-cache code of this process has been through ("proc": nothing / compiled only / last load attempt hit / missed).
-So anything pymoca remembers per process between two transfer_model calls is exercised, and nothing leaks
-between sibling transitions or between histories (each history gets its own path and its own process).
+(the way an application uses pymoca; every history gets a folder path of its own, never reused), and the
+abstract state records what the cache code of this process has been through for that folder ("proc": nothing /
+compiled only / last load attempt hit / missed).  So anything pymoca remembers per process about a folder, a
+file or a cache between two transfer_model calls is exercised.  transfer_model is the only event that runs
+pymoca code and is evaluated after its siblings, so sibling transitions cannot disturb each other.
 """
 import hashlib
 import os
@@ -177,6 +177,7 @@ class World:
         # (only calls that found no cache file), "hit" / "miss" (outcome of the latest call that found one)
         self.proc = "none"
         self.ref_in_child = False  # replay: keep the reference compile out of the observed process
+        self.dry = False  # only compute the successor's description, leave the folder alone
         self._write(self.mdir, "P.mo", MAIN["A"])
         self._write(self.mdir, "Part.mo", PART["A"])
         self._write(self.ldirs[0], "Lib.mo", LIB["A"])
@@ -189,7 +190,18 @@ class World:
         return T0 + self.tick
 
     def _write(self, folder, name, text):
-        mcache.write_files(folder, {name: text}, mtime=self.now())
+        t = self.now()
+        if not self.dry:
+            mcache.write_files(folder, {name: text}, mtime=t)
+
+    def successor_key(self, ev):
+        """Abstract state after a non-transfer event (such events never run pymoca code: they only write files)."""
+        assert ev[0] != "T"
+        w = World.__new__(World)
+        w.__dict__.update(self.__dict__)
+        w.dry = True
+        w.apply(ev)
+        return w.key()
 
     def desc(self):
         return (self.main, self.part, self.lib, tuple(sorted(self.extras, key=str)), self.opt, self.ver, self.mode, self.libsel)
@@ -199,32 +211,6 @@ class World:
         o[self.mode] = True
         o["library_folders"] = [self.ldirs[self.libsel]]
         return o
-
-    # -- the folder is snapshotted / restored *in place*: the path is part of what a process may remember
-    def snapshot(self):
-        snap = []
-        for d, _dirs, files in os.walk(self.root):
-            snap.append((os.path.relpath(d, self.root), None, None))
-            for f in files:
-                p = os.path.join(d, f)
-                st = os.stat(p)
-                with open(p, "rb") as fh:
-                    snap.append((os.path.relpath(p, self.root), fh.read(), (st.st_atime_ns, st.st_mtime_ns, st.st_mode)))
-        return snap
-
-    def restore(self, snap):
-        for f in os.listdir(self.root):
-            p = os.path.join(self.root, f)
-            shutil.rmtree(p) if os.path.isdir(p) else os.remove(p)
-        for rel, data, st in snap:
-            p = os.path.normpath(os.path.join(self.root, rel))
-            if data is None:
-                os.makedirs(p, exist_ok=True)
-                continue
-            with open(p, "wb") as fh:
-                fh.write(data)
-            os.chmod(p, st[2] & 0o7777)
-            os.utime(p, ns=(st[0], st[1]))
 
     def events(self):
         pr = _CFG["profile"]
@@ -275,7 +261,7 @@ class World:
             # just installed / updated): the property's premise; the folder left behind is not touched.
             self.libsel = ev[1]
             t = self.now()
-            for d, _dirs, files in os.walk(self.ldirs[self.libsel]):
+            for d, _dirs, files in os.walk(self.ldirs[self.libsel]) if not self.dry else ():
                 for f in files:
                     if f.endswith(".mo"):
                         os.utime(os.path.join(d, f), (t, t))
@@ -398,7 +384,7 @@ def _init(profile, expect_dir=None, warm=True):
 
     from vf.core import cas  # noqa: F401
 
-    if warm:
+    if warm and profile.get("restart"):
         _warm_up()
 
 
@@ -440,35 +426,35 @@ def _replay_segment(w, seg):
     return w
 
 
-def _step(w, ev):
-    viol = w.apply(ev)
-    return {"ev": list(ev), "key": w.key(), "viol": viol, "stop": bool(viol)}
-
-
 def _expand_last(w, seg, only_t):
-    """Runs in the process that carries the history's tail: replay it, then evaluate every enabled event in a fork
-    of this process (the folder is put back in place after each)."""
+    """Runs in the process that carries the history's tail: replay it, describe the successor of every enabled
+    non-transfer event (they do not involve pymoca), and finally evaluate the one event that does: transfer_model."""
     _replay_segment(w, seg)
-    evs = [("T",)] if only_t else w.events()
-    snap = w.snapshot() if len(evs) > 1 else None
     out = []
-    for i, ev in enumerate(evs):
-        if i:
-            w.restore(snap)
-        out.append(_in_child(_step, w, ev))
+    for ev in [] if only_t else w.events():
+        if ev[0] != "T":
+            out.append({"ev": list(ev), "key": w.successor_key(ev), "viol": [], "stop": False})
+    viol = w.apply(("T",))
+    out.insert(0, {"ev": ["T"], "key": w.key(), "viol": viol, "stop": bool(viol)})
     return out
 
 
 def expand(hist):
-    """The calling (worker) process never runs pymoca's cache code itself: it only forks."""
+    """One history = one fresh folder path, replayed in the calling (long-lived worker) process, so that whatever
+    pymoca remembers per process about a folder or a file is carried from one transfer_model call to the next.
+    The siblings cannot disturb each other: transfer_model is the only event that runs pymoca code and it is
+    evaluated last.  A history with ("restart",) events runs each segment in a process of its own (a fork of the
+    worker, which has never seen this path)."""
     segs = _segments(hist)
     w = World()
     try:
-        for seg in segs[:-1]:
-            w = _in_child(_replay_segment, w, seg)
         # a history of maximal length can only violate through a final transfer_model
         depth = _CFG["profile"]["depth"]
         only_t = depth is not None and len(hist) + 1 >= depth
+        if len(segs) == 1:
+            return _expand_last(w, segs[0], only_t)
+        for seg in segs[:-1]:
+            w = _in_child(_replay_segment, w, seg)
         return _in_child(_expand_last, w, segs[-1], only_t)
     finally:
         w.drop()
@@ -511,7 +497,7 @@ def run(ctx):
             "'b_.*', detect_aliases with allow_derivative_aliases off); point library_folders at another folder whose files are later "
             "than the cache; switch the pymoca version; switch cache/codegen; restart the process}; every edit gets the next tick "
             "of a logical clock as mtime, the cache file gets the next tick when it is written; a history runs in ONE process on ONE "
-            "folder path, each transition in a fork of it; state = (source variants, extra files, options, library folder, version, "
+            "folder path of its own; state = (source variants, extra files, options, library folder, version, "
             "mode, what the cache was built from, edited-since flag, what this process's cache code has been through: nothing | compiled "
             "| last load hit | missed); the last event of a history of maximal length is always transfer_model (nothing else can "
             "violate); every transfer_model result is compared with _compile_model of the current sources/options, and a cache that was "
